@@ -1,6 +1,7 @@
 package sim
 
 import (
+	"errors"
 	"fmt"
 	"sort"
 	"testing/synctest"
@@ -18,19 +19,21 @@ type violationPanic struct{ v Violation }
 // FaultCfg is the per-run (swarm) configuration of the network-level adversary. Weights are
 // relative; 0 disables the kind.
 type FaultCfg struct {
-	Deliver  int // deliver the oldest enabled message (FIFO)
-	Serve    int // serve the oldest enabled want
-	Refresh  int // propagate the oldest pending membership change
-	Tick     int // advance virtual time by a small irregular quantum
-	Reorder  int // deliver a random enabled message (overtaking)
-	ServeAny int // serve a random enabled want (fetch completion order)
-	Drop     int // drop a random pending message
-	Dup      int // duplicate a random pending message
-	Cut      int // cut a random link
-	Heal     int // heal a random cut link
-	Jump     int // advance virtual time by 10..120 s
-	Release  int // release one goroutine parked at a hook
-	Stream   int // move a chunk of bytes (or EOF) on a simulated libp2p stream
+	Deliver   int // deliver the oldest enabled message (FIFO)
+	Serve     int // serve the oldest enabled want
+	Refresh   int // propagate the oldest pending membership change
+	Tick      int // advance virtual time by a small irregular quantum
+	Reorder   int // deliver a random enabled message (overtaking)
+	ServeAny  int // serve a random enabled want (fetch completion order)
+	Drop      int // drop a random pending message
+	Dup       int // duplicate a random pending message
+	Cut       int // cut a random link
+	Heal      int // heal a random cut link
+	Jump      int // advance virtual time by 10..120 s
+	Release   int // release one goroutine parked at a hook
+	Stream    int // move a chunk of bytes (or EOF) on a simulated libp2p stream
+	FailFetch int // a pending block fetch (served or not) fails with an I/O error
+	Burst     int // 2-3 enabled deliveries / fetch completions in one quantum (their handlers run concurrently)
 }
 
 func BenignCfg() FaultCfg { return FaultCfg{Deliver: 6, Serve: 6, Refresh: 4, Tick: 2, Stream: 6} }
@@ -42,22 +45,22 @@ type Extra struct {
 }
 
 type K struct {
-	W      *World
-	C      *Chooser
-	F      FaultCfg
-	Extras []*Extra
-	Ops    []*Op
-	opSeq  int
+	W        *World
+	C        *Chooser
+	F        FaultCfg
+	Extras   []*Extra
+	Ops      []*Op
+	opSeq    int
 	MaxSteps int
-	Notes  map[string]interface{}
+	Notes    map[string]interface{}
 	// Invariant, when set, runs at every quiescent point.
-	Invariant func()
+	Invariant     func()
 	lastFaultStep int
-	inInv bool
-	cleanups []func()
+	inInv         bool
+	cleanups      []func()
 	// PostRun checks run after the bubble has ended, on the real clock (e.g. porcupine)
-	PostRun []func() *Violation
-	evSeq   int64
+	PostRun  []func() *Violation
+	evSeq    int64
 	noBubble bool
 }
 
@@ -123,6 +126,14 @@ func (k *K) Step() string {
 	msgsAll := w.sortedPendingLocked(pkMsg, false)
 	wantsEn := w.sortedPendingLocked(pkWant, true)
 	refr := w.sortedPendingLocked(pkRefresh, true)
+	var wantsLive []*Pend
+	if k.F.FailFetch > 0 {
+		for _, p := range w.sortedPendingLocked(pkWant, false) {
+			if p.inc.live() {
+				wantsLive = append(wantsLive, p)
+			}
+		}
+	}
 	var cuts, links [][2]int
 	for i := range w.Nodes {
 		for j := i + 1; j < len(w.Nodes); j++ {
@@ -156,6 +167,8 @@ func (k *K) Step() string {
 		k.F.Jump,
 		cond(nparks > 0, k.F.Release),
 		cond(len(streams) > 0, k.F.Stream),
+		cond(len(wantsLive) > 0, k.F.FailFetch),
+		cond(len(msgsEn)+len(wantsEn) > 1, k.F.Burst),
 	}
 	base := len(ws)
 	for _, e := range k.Extras {
@@ -250,6 +263,35 @@ func (k *K) Step() string {
 		st := streams[k.C.Intn(len(streams))]
 		k.StreamChunk(st, []int{1 << 30, 1 << 30, 4096, 100, 7}[k.C.Intn(5)])
 		return "stream"
+	case 13:
+		p := wantsLive[k.C.Intn(len(wantsLive))]
+		w.mu.Lock()
+		w.removePendLocked(p)
+		w.tr("fail-fetch %s", p)
+		w.stat("fetch-failed")
+		p.done <- errors.New("sim: injected fetch failure (i/o error)")
+		w.mu.Unlock()
+		k.lastFaultStep = w.step
+		return "failfetch"
+	case 14:
+		all := append(append([]*Pend(nil), msgsEn...), wantsEn...)
+		n := 2 + k.C.Intn(2)
+		w.mu.Lock()
+		for i := 0; i < n && len(all) > 0; i++ {
+			j := k.C.Intn(len(all))
+			p := all[j]
+			all = append(all[:j:j], all[j+1:]...)
+			verb := "deliver"
+			if p.kind == pkWant {
+				verb = "serve"
+			}
+			w.tr("burst-%s %s", verb, p)
+			w.stat(verb)
+			w.execLocked(p)
+		}
+		w.stat("burst")
+		w.mu.Unlock()
+		return "burst"
 	}
 	return ""
 }
@@ -377,18 +419,18 @@ func (k *K) Settle(maxVirtual time.Duration, maxSteps int, idle func() bool) boo
 // ---------------- client operations ----------------
 
 type Op struct {
-	ID      int
-	Name    string
-	Node    int
-	Invoke  int // kernel step at invocation
-	Return  int // kernel step at return (valid when Done)
-	Done    bool
-	Err     error
-	Val     interface{}
-	EffAt   int // number of effects on the node's disk when the op returned
-	InvSeq  int64 // global event sequence number at invocation (finer than kernel steps)
-	RetSeq  int64 // global event sequence number at return
-	done    chan struct{}
+	ID     int
+	Name   string
+	Node   int
+	Invoke int // kernel step at invocation
+	Return int // kernel step at return (valid when Done)
+	Done   bool
+	Err    error
+	Val    interface{}
+	EffAt  int   // number of effects on the node's disk when the op returned
+	InvSeq int64 // global event sequence number at invocation (finer than kernel steps)
+	RetSeq int64 // global event sequence number at return
+	done   chan struct{}
 }
 
 // Go starts one client operation in its own goroutine (the kernel never waits inside it).
@@ -534,8 +576,6 @@ func (k *K) ReleaseAllParks() {
 		kernelBlock(synctest.Wait)
 	}
 }
-
-
 
 // inKernel is true while the kernel goroutine executes its own code (including calls it makes
 // into the system under test for oracle reads and local setup): inserted yield points are
